@@ -34,8 +34,8 @@ def run(c):
     c.stage("amm")
     quick = c.tier == "quick"
     # boxes: (R, S, X, fees, run every n-th vector through the keeper)
-    boxes = [(8, 8, 6, (0, 3, 100), 2)] if quick else [(12, 12, 8, (0, 3, 100), 4), (16, 6, 4, (0, 3, 500), 1)]
-    rnd = (3000, 800, 40) if quick else (40000, 6000, 400)   # real-size amm cases, ranged lifecycles, keeper scenarios
+    boxes = [(8, 8, 6, (0, 3, 100), 2)] if quick else [(12, 12, 8, (0, 3, 100), 2), (16, 6, 4, (0, 3, 500), 1)]
+    rnd = (3000, 800, 40) if quick else (60000, 12000, 600)   # real-size amm cases, ranged lifecycles, keeper scenarios
     states = trans = 0
     stats = {}
     nodes_total = 0
@@ -69,6 +69,9 @@ def run(c):
             samples = [vec[len(vec) // 2], pick[0], pick[-1]]
             del nodes
         os.remove(logf)
+        lnk = os.path.join(c.wd, "log.ndjson")       # (vlib.trace_check leaves a symlink; a dangling one blocks the next batch)
+        if os.path.lexists(lnk):
+            os.remove(lnk)
     c.samples = samples
     need = ["big", "deposits", "withdraws", "creates", "minted", "lastShare", "keeperDeposits", "keeperWithdraws", "priced", "ranged",
             "confDeposit", "confWithdraw", "withFee", "swaps"]
